@@ -66,6 +66,13 @@ var props = map[string]propDef{
 		Assume: h3assume,
 		Comps: map[string]string{"db19 (Database, Check, CheckCo, tran, state, concur incl. 16 workers, meta, index overlay/ixbuf/btree, stor)": "real", "util/queue, util/ranges, util/ordset": "real", "dbms/query admin parser + DoAdmin": "real", "storage": "real heapStor (in memory)", "query engine / interpreter / triggers": "stub: MakeSuTran returns an empty SuTran; no Trigger_ globals", "sync, sync/atomic, channels, select, time, rand, maphash, log": "simulated seams (simrt)"},
 	},
+	"C34": {
+		ID: "C34", Harness: "h5ts", Mode: "C34", Pkgs: []string{"db19", "core"},
+		QuickS: 40, ThoroughS: 900, Recycle: 2000, Level: "exploration",
+		Rule: "each run: the bubble clock starts at a tape-chosen millisecond; the real server ticker, the real client expiry task, 1-4 goroutines sharing the client side batching (core.Thread.Timestamp) and 0-3 direct callers of db19.Timestamp each take 1-40 (sometimes 200-700) timestamps with think times of 0 ms - 30 s; 0-2 clock jumps of up to +-1 h; the tape decides every interleaving at the two locks and every time advance. Non-trivial: at least 5 timestamps and at least 2 callers. Distinct: run digest.",
+		Assume: []string{"one client process per run (the batching state is process global); other clients are modelled as direct callers of the server function", "the client reaches the server through a stub IDbms whose Timestamp calls db19.Timestamp (the protocol is H6's subject)"},
+		Comps:  map[string]string{"db19.Timestamp / ticker / StartTimestamps": "real", "core.Thread.Timestamp / tsExpire": "real", "core.SuDate / SuTimestamp arithmetic and comparison": "real", "client-server transport": "stub: IDbms.Timestamp calls db19.Timestamp directly", "clock": "simulated (bubble clock + injected skew)"},
+	},
 	"H3ALL": {
 		ID: "H3ALL", Harness: "h3txn", Mode: "ALL", Pkgs: dbPkgs,
 		QuickS: 60, ThoroughS: 1200, Recycle: 400, Level: "exploration",
